@@ -104,7 +104,8 @@ def ensure_built(log=None) -> tuple[bool, str]:
 
 def coqc(path: Path, timeout=COQ_TIMEOUT) -> tuple[int, str]:
     r = subprocess.run(
-        ["timeout", str(timeout), "coqc", "-R", str(COQ / "theories"), "PyTdgl",
+        ["bash", "-c", 'ulimit -s unlimited 2>/dev/null || ulimit -s 1000000 2>/dev/null; exec "$@"', "coqc-wrapper",
+         "timeout", str(timeout), "coqc", "-R", str(COQ / "theories"), "PyTdgl",
          "-w", "-notation-overridden,-deprecated,-inexact-float", str(path)],
         cwd=COQ, capture_output=True, text=True,
     )
@@ -415,12 +416,15 @@ def parse_nested(text: str):
     stack, cur = [], []
     for t in tok.findall(text):
         if t in "[(":
-            stack.append(cur)
+            stack.append((cur, t))
             cur = []
         elif t in "])":
             done = cur
-            cur = stack.pop()
-            cur.append(done)
+            cur, opener = stack.pop()
+            if opener == "(" and len(done) == 1 and isinstance(done[0], (int, float)):
+                cur.append(done[0])            # a parenthesised negative number, e.g. (-5)
+            else:
+                cur.append(done)
         elif t in ";,":
             continue
         elif t == "neg_infinity":
